@@ -257,6 +257,31 @@ def gen_optimize(L):
         raise TranslateError("optimize_sexp_: optimizer list is %r, the model has %r" % (names, want))
 
 
+def gen_deps(L):
+    src = read("src/compiler/preprocessor/mod.rs")
+    body = fn_body(src, "recurse_dependencies")
+    early = re.search(r"if\s+KNOWN_DIALECTS\s*\.\s*contains_key\s*\(\s*&name_string\s*\)\s*(\|\|\s*desc\s*\.\s*kind\s*\.\s*is_some\s*\(\s*\)\s*)?\{\s*return\s+Ok\s*\(\s*\(\s*\)\s*\)\s*;", body)
+    if not early:
+        raise TranslateError("recurse_dependencies: early-return head changed shape")
+    push = re.search(r"includes\s*\.\s*push\s*\(\s*IncludeDesc\s*\{\s*name\s*:\s*full_name", body)
+    read_ = re.search(r"read_new_file\s*\(", body)
+    if not push or not read_ or not (read_.start() < push.start()):
+        raise TranslateError("recurse_dependencies: read_new_file / includes.push changed shape")
+    record_embed = early.group(1) is None
+    if record_embed:
+        # an is_some() test before the push would again skip embedded files
+        m = re.search(r"kind\s*\.\s*is_some\s*\(\s*\)", body[:push.start()])
+        if m and re.search(r"if[^{]*kind\s*\.\s*is_some\s*\(\s*\)[^{]*\{\s*return", body[:push.start()]):
+            record_embed = False
+    L.append("(* preprocessor/mod.rs recurse_dependencies: are embed-file targets recorded *)")
+    L.append("Definition DEPS_RECORD_EMBED : bool := %s." % ("true" if record_embed else "false"))
+    pp = fn_body(src, "process_pp_form")
+    if not re.search(r"IncludeType::Processed\s*\(\s*f\s*,\s*kind\s*,\s*name\s*\)\s*\)\s*=\s*&included\s*\{\s*self\s*\.\s*recurse_dependencies\s*\(\s*includes\s*,\s*f\s*\.\s*clone\s*\(\s*\)\s*\)\s*\?\s*;", pp):
+        raise TranslateError("process_pp_form: embed-file no longer goes through recurse_dependencies")
+    if not re.search(r"IncludeType::Basic\s*\(\s*i\s*\)\s*\)\s*=\s*&included\s*\{\s*self\s*\.\s*recurse_dependencies\s*\(\s*includes\s*,\s*i\s*\.\s*clone\s*\(\s*\)\s*\)\s*\?\s*;", pp):
+        raise TranslateError("process_pp_form: include no longer goes through recurse_dependencies")
+
+
 def gen_consts():
     L = []
     L.append("(* GENERATED by /verif/translator/gen_consts.py from /repo's current source. Do not edit. *)")
@@ -269,5 +294,7 @@ def gen_consts():
     gen_casts(L)
     L.append("")
     gen_optimize(L)
+    L.append("")
+    gen_deps(L)
     L.append("")
     return "\n".join(L)
